@@ -475,7 +475,7 @@ def run_native_property(pid, tier, seed):
     if pid in ('C17', 'C18'):
         fdir = f'{wdir}/fuzz'; shutil.rmtree(fdir, ignore_errors=True); os.makedirs(f'{fdir}/corpus'); os.makedirs(f'{fdir}/art')
         seeds_dir = f'{V}/corpus/{pid}'
-        runs = 400000 if quick else 30000000
+        runs = 400000 if quick else 8000000
         cmd = [f'{wdir}/{pid.lower()}_fuzz', f'-runs={runs}', f'-seed={max(1, seed)}', '-max_len=600', f'-artifact_prefix={fdir}/art/', '-print_final_stats=1', f'{fdir}/corpus'] + ([seeds_dir] if os.path.isdir(seeds_dir) else [])
         fuzz = subprocess.Popen(cmd, stdout=open(f'{wdir}/fuzz.log', 'w'), stderr=subprocess.STDOUT)
     evaluations = 0; distinct = 0; samples = []; extra = {}; broken = 0
